@@ -144,6 +144,9 @@ func ParseEnvelopedPrivateKey(priv *PrivateKey, enveloped []byte) (*PrivateKey, 
 	}
 	mode := cipher.NewECBDecrypter(block)
 	bytes := encryptedPrivateKey.RightAlign()
+	if len(bytes) == 0 || len(bytes)%block.BlockSize() != 0 {
+		return nil, errors.New("sm2: invalid encrypted private key length in enveloped data")
+	}
 	plaintext := make([]byte, len(bytes))
 	mode.CryptBlocks(plaintext, bytes)
 	// Do we need to check length in order to be compatible with some implementations with padding?
